@@ -259,6 +259,33 @@ def run(ctx):
         return _retry_manual(ctx, b, manual)
     inner = [(bb, t) for bb, t in b.calls() if callee_is(t, 'client::stub::Stub::call')]
     policy = [(bb, t) for bb, t in b.calls() if callee_is(t, 'Fn::call', 'FnMut::call_mut', 'FnOnce::call_once') and not b.blocks[bb]['term'].get('expn')]
+    policy_terms = {}
+    for bb, t in policy:
+        targ_ = P.operand(b, t['args'][1])
+        policy_terms[bb] = (P._field(targ_, 0, 0), P._field(targ_, 1, 1))
+    if not policy:
+        # the policy may be consulted through a thin private helper of the stub: one policy call whose (result, attempt) arguments are the helper's own
+        # parameters and whose answer is what the helper returns
+        for bb, t in b.calls():
+            h = F.callee_fn(t)
+            if h is None or h.coroutine:
+                continue
+            hp = [(b2, t2) for b2, t2 in h.calls() if callee_is(t2, 'Fn::call', 'FnMut::call_mut', 'FnOnce::call_once') and not h.blocks[b2]['term'].get('expn')]
+            if len(hp) != 1:
+                continue
+            b2, t2 = hp[0]
+            rets_ = P.root(P._local_whole(h, 0))
+            if not (rets_ and all(P.unbound(x) == ('call', h.id, b2) for x, _ in rets_)):
+                continue
+            tup = P.operand(h, t2['args'][1], at=b2)
+            ks = []
+            for k_ in (0, 1):
+                rs_ = P.root(P._field(tup, k_, k_))
+                if rs_ and all(x[0] == 'param' and x[1] == h.id and not norm_path(q) for x, q in rs_) and len({x[2] for x, _ in rs_}) == 1:
+                    ks.append(rs_[0][0][2])
+            if len(ks) == 2:
+                policy.append((bb, t))
+                policy_terms[bb] = (P.operand(b, t['args'][ks[0] - 1], at=bb), P.operand(b, t['args'][ks[1] - 1], at=bb))
     R.ob('C20.retry', ('Retry::call', 'one counter advance, one inner call, one policy call per iteration'),
          len(nexts) == 1 and len(inner) == 1 and len(policy) == 1, 'the loop body advances the counter once, issues one attempt and asks the policy once',
          [b.loc(t) for _, t in nexts + inner + policy], 'next=%d inner=%d policy=%d' % (len(nexts), len(inner), len(policy)))
@@ -288,9 +315,7 @@ def run(ctx):
              'each attempt calls the inner stub with the caller\'s context and Arc::clone of the one request wrapped once before the loop', [b.loc(it)],
              'ctx:%s req:%s' % ([P.describe(r) for r, _ in ctx_roots], [P.describe(r) + str(p) for r, p in req_roots]))
         # policy args: (&result, i)
-        targ = P.operand(b, pt['args'][1])
-        r0 = P._field(targ, 0, 0)
-        r1 = P._field(targ, 1, 1)
+        r0, r1 = policy_terms[pb]
         res_roots = P.root(r0)
         res_ok = bool(res_roots) and all(r == ('call', b.id, ib) and ('t', 'await') in p for r, p in res_roots)
         i_roots = P.root(r1)
